@@ -485,6 +485,28 @@ Qed.
 Lemma write_dxf_spec batches : write_dxf batches = map dxf_spec (concat batches).
 Proof. unfold write_dxf. rewrite fold_batches. apply save_dxf_spec. Qed.
 
+(* DXF.Lines / DXF.Line (the object API): ChangeLayer("Lines") before every line *)
+Definition dxf_obj_line (d : drawing) (l : seg) : drawing := dxf_seg (change_layer "Lines"%string d) l.
+Definition dxf_object_lines (batches : list (list seg)) : list dxf_ent :=
+  snd (fold_left (fun d ls => fold_left dxf_obj_line ls d) batches new_dxf).
+
+Lemma dxf_obj_fold cur es mesh :
+  snd (fold_left dxf_obj_line mesh (["0"; "Lines"; "Points"]%string, cur, es)) = es ++ map dxf_spec mesh.
+Proof.
+  revert cur es; induction mesh as [|[[x0 y0] [x1 y1]] mesh IH]; intros cur es; cbn [fold_left map].
+  - cbn [snd]. now rewrite app_nil_r.
+  - change (dxf_obj_line (["0"; "Lines"; "Points"]%string, cur, es) (x0, y0, (x1, y1)))
+      with (["0"; "Lines"; "Points"]%string, "Lines"%string, es ++ [dxf_spec (x0, y0, (x1, y1))]).
+    rewrite IH, <- app_assoc. reflexivity.
+Qed.
+
+Lemma dxf_object_lines_spec batches : dxf_object_lines batches = map dxf_spec (concat batches).
+Proof.
+  unfold dxf_object_lines. rewrite fold_batches.
+  change new_dxf with (["0"; "Lines"; "Points"]%string, "Points"%string, @nil dxf_ent).
+  now rewrite dxf_obj_fold.
+Qed.
+
 (* ================================================================== SVG *)
 Definition qmin (a b : Q) : Q := if Qle_bool a b then a else b.   (* math.Min on finite values *)
 Definition qmax (a b : Q) : Q := if Qle_bool a b then b else a.   (* math.Max *)
@@ -740,13 +762,19 @@ Definition mismatches_mb (cs : list mb_case) : list N :=
 Definition dxf_obs := (string * z3 * z3)%type.
 Definition dxf_obs_eqb (a b : dxf_obs) : bool :=
   let '(la, pa, qa) := a in let '(lb, pb, qb) := b in String.eqb la lb && z3eqb pa pb && z3eqb qa qb.
-Definition dxf_case := (N * list (list seg) * list dxf_obs)%type.
+(* via: 0 = ToDXF (writeDXF), 1 = SaveDXF, 2 = NewDXF + DXF.Lines + Save *)
+Definition dxf_case := (N * N * list (list seg) * list dxf_obs)%type.
 Definition dxf_case_ok (c : dxf_case) : bool :=
-  let '(id, batches, ents) := c in
+  let '(id, via, batches, ents) := c in
+  let model := match via with
+               | 0%N => write_dxf batches
+               | 1%N => save_dxf (concat batches)
+               | _ => dxf_object_lines batches
+               end in
   list_eqb dxf_obs_eqb
-    (map (fun e : dxf_ent => let '(l, p, q) := e in (l, fmt3 16 p, fmt3 16 q)) (write_dxf batches)) ents.
+    (map (fun e : dxf_ent => let '(l, p, q) := e in (l, fmt3 16 p, fmt3 16 q)) model) ents.
 Definition mismatches_dxf (cs : list dxf_case) : list N :=
-  map (fun c : dxf_case => let '(id, _, _) := c in id) (filter (fun c => negb (dxf_case_ok c)) cs).
+  map (fun c : dxf_case => let '(id, _, _, _) := c in id) (filter (fun c => negb (dxf_case_ok c)) cs).
 
 (* -- SVG: width, height and the lines read back, integers in units of 1e-2.  The Go
       code subtracts in float64, the model exactly: a printed value p agrees with
@@ -754,13 +782,14 @@ Definition mismatches_dxf (cs : list dxf_case) : list N :=
       last printed digit plus the rounding of one subtraction, with margin). *)
 Definition near2 (p : Z) (d : Q) : bool :=
   Qle_bool (Qabs (inject_Z p - 100 * d)) ((1 # 2) + 100 * Qabs d * (1 # 1125899906842624)).
-Definition svg_case := (N * list (list seg) * Z * Z * list (Z * Z * Z * Z))%type.
+(* via: 0 = ToSVG (writeSVG), otherwise SaveSVG / SVG.Line + Save *)
+Definition svg_case := (N * N * list (list seg) * Z * Z * list (Z * Z * Z * Z))%type.
 Definition svg_case_ok (c : svg_case) : bool :=
-  let '(id, batches, pw, ph, plines) := c in
-  let '(w, h, lines) := write_svg batches in
+  let '(id, via, batches, pw, ph, plines) := c in
+  let '(w, h, lines) := match via with 0%N => write_svg batches | _ => save_svg (concat batches) end in
   near2 pw w && near2 ph h &&
   list_eqb (fun (m : Q * Q * Q * Q) (p : Z * Z * Z * Z) =>
               let '(a, b, c, d) := m in let '(pa, pb, pc, pd) := p in
               near2 pa a && near2 pb b && near2 pc c && near2 pd d) lines plines.
 Definition mismatches_svg (cs : list svg_case) : list N :=
-  map (fun c : svg_case => let '(id, _, _, _, _) := c in id) (filter (fun c => negb (svg_case_ok c)) cs).
+  map (fun c : svg_case => let '(id, _, _, _, _, _) := c in id) (filter (fun c => negb (svg_case_ok c)) cs).
